@@ -299,6 +299,20 @@ func VerifyFunc(prog *Program, db *ContractDB, fn *ssa.Function, ct *Contract, c
 	x.work = []*State{st}
 	x.deadline = time.Now().Add(150 * time.Second)
 	x.run()
+	if len(x.errs) == 0 && ct != nil {
+		// every "assert/apply ... call f#k" clause must have met its anchor on some path
+		for i, a := range ct.Asserts {
+			if a.Callee == "*" || x.assertFired[ct.Key+"#"+fmt.Sprint(i)] {
+				continue
+			}
+			when := "before"
+			if a.After {
+				when = "after"
+			}
+			x.obls = append(x.obls, &Obligation{Name: x.oblName(st, fmt.Sprintf("anchor:%s %s#%d.%d", when, a.Callee, a.Ord, i+1), "", nil), Func: res.Label, Kind: "anchor",
+				Goal: x.b.False(), Bank: x.b, Info: "the call this clause is anchored to is never reached", Property: propsOf(ct)})
+		}
+	}
 	if len(x.errs) == 0 {
 		// vacuity: some return (or declared panic) is reachable
 		var cands []*State
